@@ -1,18 +1,139 @@
 (** C12 -- property theorems only.  Each is closed by short glue from lemmas of [Proofs*],
-    and followed by [Print Assumptions]. *)
-From Sci Require Import StdPath.Model StdPath.Spec StdPath.Proofs StdPath.ProofsRev.
+    and followed by [Print Assumptions].
+
+    [view_ok b]: b is a byte string the view constructor accepts (4-byte meta header, total
+    length exactly the size the segment lengths ask for, every element a byte): includes
+    zero-length first/middle segments, pointers out of range, more than 64 hop fields.
+    [wf p]: p is a model the encoder accepts (wire_valid, with the CurrHF range check of the
+    C03 repair) whose fields are inside the ranges of their Rust types. *)
+From Sci Require Import StdPath.Model StdPath.Spec StdPath.Proofs StdPath.ProofsRev StdPath.ProofsEnc StdPath.ProofsQuery.
 Local Open Scope N_scope.
 
-(** On any byte string whatsoever (in particular every one the view constructor accepts:
-    zero-length middle segment, pointers out of range, more than 64 hop fields), a reversal
-    that reports an error returns the bytes unchanged. *)
-Theorem err_leaves_bytes_unchanged :
-  forall b b' e, view_try_reverse b = (b', Err e) -> b' = b.
-Proof. exact view_reverse_err_unchanged. Qed.
-Print Assumptions err_leaves_bytes_unchanged.
+(** Reversing the encoded bytes in place gives exactly the encoding of the reversed model,
+    with the same Ok/Err result, for every accepted model at every pointer position. *)
+Theorem reverse_commutes :
+  forall p, wf p ->
+    view_try_reverse (encode p) = (encode (fst (model_try_reverse p)), snd (model_try_reverse p)).
+Proof. intros p H. apply reverse_commutes_wfp. apply wf_inv. exact H. Qed.
+Print Assumptions reverse_commutes.
 
-(** Reversal is its own inverse on every byte string the view constructor accepts. *)
+(** ... and decoding the reversed bytes gives the reversed model. *)
+Theorem reverse_commutes_decoded :
+  forall p p', wf p -> model_try_reverse p = (p', Ok tt) ->
+    from_view (fst (view_try_reverse (encode p))) = p'.
+Proof.
+  intros p p' H E. pose proof (wf_inv p H) as Hw. rewrite (reverse_commutes_wfp p Hw), E. cbn [fst].
+  destruct (63 <? m_hop_count p - p_ch p - 1) eqn:Hfit.
+  - exfalso. unfold model_try_reverse in E. destruct Hw as (Hlen & _ & Hch & _ & Hci). unfold m_info_count in E.
+    destruct (N.of_nat (length (p_segs p)) =? 0); [discriminate|].
+    destruct (m_hop_count p <=? p_ch p); [discriminate|].
+    destruct (N.of_nat (length (p_segs p)) <=? p_ci p); [discriminate|]. rewrite Hfit in E. discriminate.
+  - destruct (model_reverse_wfp p Hw Hfit) as [E' Hw']. rewrite E in E'. injection E' as ->.
+    apply from_view_encode_wfp. exact Hw'.
+Qed.
+Print Assumptions reverse_commutes_decoded.
+
+(** Reversal is its own inverse on EVERY byte string the view constructor accepts. *)
 Theorem reverse_involutive :
   forall b b', view_ok b = true -> view_try_reverse b = (b', Ok tt) -> view_try_reverse b' = (b, Ok tt).
 Proof. exact view_reverse_involutive. Qed.
 Print Assumptions reverse_involutive.
+
+(** Reversal preserves the logical position: on every accepted byte string the hop field under
+    the pointer afterwards is the hop field that was under the pointer before, at the mirrored
+    index. *)
+Theorem reverse_preserves_position :
+  forall b b', view_ok b = true -> view_try_reverse b = (b', Ok tt) ->
+    exists h, hop_field b (curr_hf b) = Some h /\ hop_field b' (curr_hf b') = Some h
+              /\ curr_hf b' + curr_hf b + 1 = hop_count b.
+Proof. exact view_reverse_same_hop. Qed.
+Print Assumptions reverse_preserves_position.
+
+(** View and model compute the same expiry. *)
+Theorem expiration_agrees :
+  forall p, wf p -> view_expiration (encode p) = model_expiration p.
+Proof. intros p H. apply expiration_agrees_wfp. apply wf_inv. exact H. Qed.
+Print Assumptions expiration_agrees.
+
+(** Conversion in either direction: decode (encode p) = p. *)
+Theorem to_model_encode_id :
+  forall p, wf p -> from_view (encode p) = p.
+Proof. intros p H. apply from_view_encode_wfp. apply wf_inv. exact H. Qed.
+Print Assumptions to_model_encode_id.
+
+(** Segment queries.  The iterator yields exactly the leading non-empty segments on EVERY byte
+    string; on an encoding these are the model's segments, and the counts agree.
+    PARTIAL with respect to "interface and segment queries": [calculate_segment_index] and the
+    interface accessors are compared with their specification ([Spec.sp_seg_index]) by the
+    correspondence check only. *)
+Theorem queries_agree_partial :
+  (forall b, view_segments b = Ok (segments_spec (seg0_len b) (seg1_len b) (seg2_len b)))
+  /\ (forall p, wf p ->
+        hop_count (encode p) = m_hop_count p /\ info_count (encode p) = m_info_count p
+        /\ total_segments (encode p) = m_info_count p).
+Proof.
+  split; [exact view_segments_spec|]. intros p H. apply wf_inv in H.
+  destruct (encode_assembled p H) as (l0 & l1 & l2 & Epad & Eenc & Hm & Hs & Hl0 & Hrc & Hsum).
+  rewrite Eenc. unfold hop_count, info_count, total_segments, m_info_count.
+  rewrite (asm_seg0 _ _ _ _ _ _ _ _ Hm), (asm_seg1 _ _ _ _ _ _ _ _ Hm), (asm_seg2 _ _ _ _ _ _ _ _ Hm).
+  refine (conj Hsum (conj _ _)).
+  - rewrite <- (sh_if_cnt _ _ _ _ _ Hs). unfold infos_of. now rewrite !map_length.
+  - rewrite <- Hrc. unfold rev_seg_count. destruct (l0 =? 0) eqn:E; [apply N.eqb_eq in E; contradiction|reflexivity].
+Qed.
+Print Assumptions queries_agree_partial.
+
+(** One-hop paths: in-place reversal of the view = reversal of the model, and the conversion
+    to a reversed standard path is the meta header followed by the reversed view. *)
+Theorem onehop_agrees :
+  forall p, onehop_typed p = true ->
+    oh_view_try_reverse (oh_encode p) = (oh_encode (fst (oh_model_try_reverse p)), snd (oh_model_try_reverse p))
+    /\ forall sp, oh_into_reversed_standard p = Ok sp ->
+         encode sp = mk_meta 0 0 0 2 0 0 ++ fst (oh_view_try_reverse (oh_encode p)).
+Proof.
+  intros p H. split; [apply oh_reverse_commutes; exact H|].
+  intros sp E. apply (oh_conversion_agrees p H sp E).
+Qed.
+Print Assumptions onehop_agrees.
+
+(** An operation that reports an error leaves its operand untouched: EVERY byte string (view,
+    one-hop view), every model, every ScionPath. *)
+Theorem err_leaves_bytes_unchanged :
+  (forall b b' e, view_try_reverse b = (b', Err e) -> b' = b)
+  /\ (forall b b' e, oh_view_try_reverse b = (b', Err e) -> b' = b)
+  /\ (forall p p' e, model_try_reverse p = (p', Err e) -> p' = p)
+  /\ (forall p p' e, scion_try_reverse p = (p', Err e) -> p' = p).
+Proof.
+  exact (conj view_reverse_err_unchanged (conj oh_view_reverse_err_unchanged
+        (conj model_reverse_err_unchanged scion_reverse_err_unchanged))).
+Qed.
+Print Assumptions err_leaves_bytes_unchanged.
+
+(** No modelled panic site (unchecked slice, expect, u32/usize overflow) is reachable: views
+    on every accepted byte string, models on every typed model. *)
+Theorem no_panic :
+  (forall b, view_ok b = true ->
+     is_panic (snd (view_try_reverse b)) = false /\ is_panic (view_segments b) = false
+     /\ is_panic (view_expiration b) = false)
+  /\ (forall b, is_panic (snd (oh_view_try_reverse b)) = false /\ is_panic (oh_view_expiration b) = false)
+  /\ (forall p, is_panic (snd (model_try_reverse p)) = false)
+  /\ (forall p, path_typed p = true -> is_panic (model_expiration p) = false).
+Proof.
+  refine (conj _ (conj _ (conj model_reverse_no_panic model_expiration_no_panic))).
+  - intros b H. exact (conj (view_reverse_no_panic b H) (conj (view_segments_no_panic b) (view_expiration_no_panic b H))).
+  - intros b. split; [|reflexivity]. unfold oh_view_try_reverse. destruct (_ =? 0); reflexivity.
+Qed.
+Print Assumptions no_panic.
+
+(** non-vacuity: a two-segment model at position (1, 2) is accepted; reversal succeeds and the
+    involution/commutation theorems apply to it *)
+Definition ex_hop (k : N) : hop := mkHop 0 63 k (k + 1) [1; 2; 3; 4; 5; k].
+Definition ex_path : spath :=
+  mkPath 1 2 [mkSeg (mkInfo 0 7 1700000000) [ex_hop 1; ex_hop 3];
+              mkSeg (mkInfo 1 9 1700000100) [ex_hop 5; ex_hop 7; ex_hop 9]].
+Example ex_path_wf : wf ex_path.
+Proof. split; vm_compute; reflexivity. Qed.
+Example ex_path_reversed :
+  snd (view_try_reverse (encode ex_path)) = Ok tt
+  /\ view_ok (encode ex_path) = true
+  /\ p_ch (fst (model_try_reverse ex_path)) = 2 /\ p_ci (fst (model_try_reverse ex_path)) = 0.
+Proof. vm_compute. repeat split; reflexivity. Qed.
